@@ -164,7 +164,8 @@ def fill_values(rng, base, count, nan_free=False, text_safe=False):
             vals[np.isnan(vals)] = dt.type(0.5)
         return vals
     if base == "f16":
-        return fill_values(rng, "f8", count, nan_free).astype(np.longdouble)
+        with np.errstate(all="ignore"):      # signalling NaNs are quieted by the widening cast
+            return fill_values(rng, "f8", count, nan_free).astype(np.longdouble)
     if base in ("c8", "c16", "c32"):
         part = {"c8": "f4", "c16": "f8", "c32": "f16"}[base]
         re = fill_values(rng, part, count, nan_free)
